@@ -86,8 +86,10 @@ Choice(kind, n, T) == ChoiceL(kind, n, T, {"n"})
 \* (children: 11, 12, ...) go up, down and repeat along the stored list so that an update can carry a
 \* version above, equal to or below the one the child currently has
 VerOf(k) == <<12, 11, 13, 11, 12>>[((k - 1) % 5) + 1]
-MkUpd(k, c) == SetLoc([idx |-> c.idx, time |-> c.time, rev |-> c.rev,
-                        ver |-> VerOf(k), cs |-> 20 + k, lat |-> 30 + k, lon |-> 40 + k], c.loc)
+\* (positions beyond 9, used by the long-list family, get payload symbols above the children's)
+MkUpd(k, c) == SetLoc([idx |-> c.idx, time |-> c.time, rev |-> c.rev, ver |-> VerOf(k),
+                        cs |-> IF k <= 9 THEN 20 + k ELSE 100 + k, lat |-> IF k <= 9 THEN 30 + k ELSE 100 + k,
+                        lon |-> IF k <= 9 THEN 40 + k ELSE 140 + k], c.loc)
 MkList(f) == [k \in DOMAIN f |-> MkUpd(k, f[k])]
 
 Pairs(T) == {p \in (0 .. T) \X (0 .. T) : p[1] <= p[2]}
